@@ -180,6 +180,7 @@ func runC13(c *eng.Ctx, thorough bool) {
 
 	c13Cache(c)
 	cacheLockOwner(c, "C13.5")
+	cacheLruUnderKeyLock(c, "C13.5") // shared with C08.5 (props/c08g2.go)
 	c13Seek(c)
 	c13SlicePagination(c)
 	c13Views(c)
